@@ -1,4 +1,331 @@
-(* Props/C09.v -- property theorems only *)
+(* Props/C09.v -- property theorems only.
+   All statements are about the engine model Flow/FixedPoint.v ([run] = fixed_point_forward_options,
+   [run_nobudget] = fixed_point_backward_options), abstract in the analysis and in the location graph.
+   Proofs: Flow/FixedPointProofs.v.  Every theorem is unbounded ([U]). *)
 From Coq Require Import List Bool Arith.
-From Falcon Require Import Base.Res Flow.FixedPoint Flow.FixedPointProofs.
+From Falcon Require Import Base.Res IL.Func IL.Loc IL.LocProofs Flow.FixedPoint Flow.FixedPointProofs Flow.FpIL Flow.FpILProofs Flow.C09Example.
 Import ListNotations.
+
+Section C09.
+  Variables (L S : Type) (eqb : L -> L -> bool).
+  Hypothesis eqb_spec : forall a b, reflect (a = b) (eqb a b).
+  (* the engine's neighbour accessors (forward engine: join_from = backward(), push_to = forward();
+     backward engine: the other way round), the transfer function, join, partial_cmp *)
+  Variables join_from push_to : L -> res (list L).
+  Variable trans : L -> option S -> res S.
+  Variable join : S -> S -> res S.
+  Variable cmp : S -> S -> option comparison.
+  (* the location graph: successors / predecessors as total functions, the start location *)
+  Variables succ pred : L -> list L.
+  Variable entry : L.
+
+  Notation reach := (reach L succ entry).
+  Notation run := (FixedPoint.run L S eqb join_from push_to trans join cmp).
+  Notation run_nobudget := (FixedPoint.run_nobudget L S eqb join_from push_to trans join cmp).
+  Notation In_dom := (In_dom L S eqb).
+  Notation lookup := (FixedPoint.lookup L S eqb).
+  Notation join_neighbours := (FixedPoint.join_neighbours L S eqb join).
+  Notation term := (term L S eqb join_from push_to trans join cmp).
+  Notation nsteps := (nsteps L S eqb join_from push_to trans join cmp).
+  Notation le := (FixedPointProofs.le S cmp).
+  Notation ole := (FixedPointProofs.ole S cmp).
+  (* holds R m l :  exists st new s,  join of the states of those pred l that have one = st,
+                    trans l st = Ok new,  m l = s,  R new s *)
+  Notation holds := (holds L S eqb trans join pred).
+  Notation eqn_ok := (eqn_ok L S eqb trans join cmp pred).        (* R new s := cmp new s = Some Eq *)
+  Notation eqn_forced := (eqn_forced L S eqb trans join cmp pred). (* ... \/ exists old, join new old = Ok s *)
+  Notation nonmono_at := (nonmono_at L S eqb trans join cmp pred).
+  Notation Below := (Below L S eqb cmp).
+
+  (* the accessors are total on the locations reachable from the start, and converse there (C18) *)
+  Hypothesis from_ok : forall l, reach l -> join_from l = Ok (pred l).
+  Hypothesis to_ok : forall l, reach l -> push_to l = Ok (succ l).
+  Hypothesis converse : forall a b, reach a -> reach b -> (In b (succ a) <-> In a (pred b)).
+
+  (* ---- 1. whatever is returned is a solution on exactly the reachable locations; no monotonicity ---- *)
+  Theorem fp_solution : (forall s, cmp s s = Some Eq) -> forall fuel max m,
+    run fuel false max 0 [] [entry] = Done m ->
+    (forall l, In_dom m l <-> reach l) /\ (forall l, In_dom m l -> eqn_ok m l).
+  Proof. exact (FixedPointProofs.fp_solution L S eqb eqb_spec join_from push_to trans join cmp succ pred entry from_ok to_ok converse). Qed.
+
+  Theorem fp_solution_backward : (forall s, cmp s s = Some Eq) -> forall fuel m,
+    run_nobudget fuel false [] [entry] = Done m ->
+    (forall l, In_dom m l <-> reach l) /\ (forall l, In_dom m l -> eqn_ok m l).
+  Proof. exact (FixedPointProofs.fp_solution_nobudget L S eqb eqb_spec join_from push_to trans join cmp succ pred entry from_ok to_ok converse). Qed.
+
+  (* force = true: same domain; each state is the transfer result or a join of it with another state,
+     hence (join an upper bound) a post-fixpoint *)
+  Theorem fp_forced : (forall s, cmp s s = Some Eq) -> forall fuel force max m,
+    run fuel force max 0 [] [entry] = Done m ->
+    (forall l, In_dom m l <-> reach l) /\ (forall l, In_dom m l -> eqn_forced m l).
+  Proof. exact (FixedPointProofs.fp_forced L S eqb eqb_spec join_from push_to trans join cmp succ pred entry from_ok to_ok converse). Qed.
+
+  Theorem fp_forced_backward : (forall s, cmp s s = Some Eq) -> forall fuel force m,
+    run_nobudget fuel force [] [entry] = Done m ->
+    (forall l, In_dom m l <-> reach l) /\ (forall l, In_dom m l -> eqn_forced m l).
+  Proof. exact (FixedPointProofs.fp_forced_nobudget L S eqb eqb_spec join_from push_to trans join cmp succ pred entry from_ok to_ok converse). Qed.
+
+  Theorem fp_forced_postfix : (forall s, cmp s s = Some Eq) -> forall fuel force max m,
+    (forall a b j, join a b = Ok j -> le a j) ->
+    run fuel force max 0 [] [entry] = Done m -> forall l, In_dom m l -> holds le m l.
+  Proof. exact (FixedPointProofs.fp_forced_postfix L S eqb eqb_spec join_from push_to trans join cmp succ pred entry from_ok to_ok converse). Qed.
+
+  Theorem fp_forced_postfix_backward : (forall s, cmp s s = Some Eq) -> forall fuel force m,
+    (forall a b j, join a b = Ok j -> le a j) ->
+    run_nobudget fuel force [] [entry] = Done m -> forall l, In_dom m l -> holds le m l.
+  Proof. exact (FixedPointProofs.fp_forced_postfix_nobudget L S eqb eqb_spec join_from push_to trans join cmp succ pred entry from_ok to_ok converse). Qed.
+
+  (* ---- 2. leastness: below every post-fixpoint (a fortiori every solution) m' ---- *)
+  Theorem fp_least :
+    (forall a b c, le a b -> le b c -> le a c) ->
+    (forall a b j, join a b = Ok j -> le a j /\ le b j /\ (forall c, le a c -> le b c -> le j c)) ->
+    (forall l x y a b, reach l -> (x = None -> l = entry) -> ole x y -> trans l x = Ok a -> trans l y = Ok b -> le a b) ->
+    forall m', (forall l, reach l -> holds le m' l) ->
+    forall fuel force max m, run fuel force max 0 [] [entry] = Done m ->
+    forall l s, lookup m l = Some s -> exists s', lookup m' l = Some s' /\ le s s'.
+  Proof. exact (FixedPointProofs.fp_least L S eqb eqb_spec join_from push_to trans join cmp succ pred entry from_ok to_ok converse). Qed.
+
+  Theorem fp_least_backward :
+    (forall a b c, le a b -> le b c -> le a c) ->
+    (forall a b j, join a b = Ok j -> le a j /\ le b j /\ (forall c, le a c -> le b c -> le j c)) ->
+    (forall l x y a b, reach l -> (x = None -> l = entry) -> ole x y -> trans l x = Ok a -> trans l y = Ok b -> le a b) ->
+    forall m', (forall l, reach l -> holds le m' l) ->
+    forall fuel force m, run_nobudget fuel force [] [entry] = Done m ->
+    forall l s, lookup m l = Some s -> exists s', lookup m' l = Some s' /\ le s s'.
+  Proof. exact (FixedPointProofs.fp_least_nobudget L S eqb eqb_spec join_from push_to trans join cmp succ pred entry from_ok to_ok converse). Qed.
+
+  (* the absent input is presented to trans only at the start location *)
+  Theorem none_only_at_entry : forall force k m l q',
+    nsteps force k [] [entry] m (l :: q') -> join_neighbours m (pred l) = Ok None -> l = entry.
+  Proof. exact (FixedPointProofs.none_only_at_entry L S eqb eqb_spec join_from push_to trans join cmp succ pred entry to_ok converse). Qed.
+
+  (* ---- 3. termination and the step budget ---- *)
+  (* [term force m q n o]: the loop without budget, started in (m, q), stops after exactly n pops with o;
+     [nsteps force k m q m2 q2]: k pops succeed and lead to (m2, q2) *)
+  Theorem fp_terminates : forall force (rank : S -> nat) h,
+    (forall s, rank s <= h) -> (forall a b, cmp a b = Some Gt -> rank b < rank a) ->
+    (force = true -> forall new old j, cmp new old <> Some Eq -> join new old = Ok j -> rank old < rank j) ->
+    forall U, NoDup U -> (forall l, reach l -> In l U) ->
+    forall d, (forall l, reach l -> length (succ l) <= d) ->
+    exists n o, n <= 1 + d * (length U * Datatypes.S h) /\ term force [] [entry] n o.
+  Proof. exact (FixedPointProofs.fp_terminates L S eqb eqb_spec join_from push_to trans join cmp succ entry to_ok). Qed.
+
+  Theorem fp_terminates_backward : forall force (rank : S -> nat) h,
+    (forall s, rank s <= h) -> (forall a b, cmp a b = Some Gt -> rank b < rank a) ->
+    (force = true -> forall new old j, cmp new old <> Some Eq -> join new old = Ok j -> rank old < rank j) ->
+    forall U, NoDup U -> (forall l, reach l -> In l U) ->
+    forall d, (forall l, reach l -> length (succ l) <= d) ->
+    forall fuel, 1 + d * (length U * Datatypes.S h) < fuel -> run_nobudget fuel force [] [entry] <> OutOfFuel.
+  Proof. exact (FixedPointProofs.fp_terminates_nobudget L S eqb eqb_spec join_from push_to trans join cmp succ entry to_ok). Qed.
+
+  Theorem fp_budget_suffices : forall force (rank : S -> nat) h,
+    (forall s, rank s <= h) -> (forall a b, cmp a b = Some Gt -> rank b < rank a) ->
+    (force = true -> forall new old j, cmp new old <> Some Eq -> join new old = Ok j -> rank old < rank j) ->
+    forall U, NoDup U -> (forall l, reach l -> In l U) ->
+    forall d, (forall l, reach l -> length (succ l) <= d) ->
+    forall max, 1 + d * (length U * Datatypes.S h) <= Datatypes.S max ->
+    exists n o, term force [] [entry] n o /\ run (Datatypes.S (Datatypes.S max)) force max 0 [] [entry] = o.
+  Proof. exact (FixedPointProofs.fp_budget_suffices L S eqb eqb_spec join_from push_to trans join cmp succ entry to_ok). Qed.
+
+  Theorem fp_no_maxsteps : forall force (rank : S -> nat) h,
+    (forall s, rank s <= h) -> (forall a b, cmp a b = Some Gt -> rank b < rank a) ->
+    (force = true -> forall new old j, cmp new old <> Some Eq -> join new old = Ok j -> rank old < rank j) ->
+    forall U, NoDup U -> (forall l, reach l -> In l U) ->
+    forall d, (forall l, reach l -> length (succ l) <= d) ->
+    forall max, (forall l st, trans l st <> Err EMaxSteps) -> (forall a b, join a b <> Err EMaxSteps) ->
+    1 + d * (length U * Datatypes.S h) <= Datatypes.S max ->
+    run (Datatypes.S (Datatypes.S max)) force max 0 [] [entry] <> Fail EMaxSteps.
+  Proof. exact (FixedPointProofs.fp_no_maxsteps L S eqb eqb_spec join_from push_to trans join cmp succ pred entry from_ok to_ok). Qed.
+
+  (* the budget, exactly: with the fuel Flow/FpIL.v supplies (max+2), (a) stopping within max+1 pops gives
+     the unbudgeted outcome, (b) a pop number max+2 being needed gives MaxSteps, (c) one of the two applies *)
+  Theorem fp_budget : forall force max m q,
+    (forall n o, term force m q n o -> n <= Datatypes.S max -> run (Datatypes.S (Datatypes.S max)) force max 0 m q = o) /\
+    (forall m2 l q2, nsteps force (Datatypes.S max) m q m2 (l :: q2) ->
+        run (Datatypes.S (Datatypes.S max)) force max 0 m q = Fail EMaxSteps) /\
+    ((exists n o, n <= Datatypes.S max /\ term force m q n o) \/
+     (exists m2 l q2, nsteps force (Datatypes.S max) m q m2 (l :: q2))).
+  Proof. exact (FixedPointProofs.fp_budget L S eqb join_from push_to trans join cmp). Qed.
+
+  Theorem fp_maxsteps_iff : forall force max m q,
+    run (Datatypes.S (Datatypes.S max)) force max 0 m q = Fail EMaxSteps <->
+    (exists m2 l q2, nsteps force (Datatypes.S max) m q m2 (l :: q2)) \/
+    (exists n, n <= Datatypes.S max /\ term force m q n (Fail EMaxSteps)).
+  Proof. exact (FixedPointProofs.fp_maxsteps_iff L S eqb join_from push_to trans join cmp). Qed.
+
+  Theorem run_never_out_of_fuel : forall fuel force max steps m q,
+    max + 2 <= fuel + steps -> steps <= Datatypes.S max -> run fuel force max steps m q <> OutOfFuel.
+  Proof. exact (FixedPointProofs.run_never_out_of_fuel L S eqb join_from push_to trans join cmp). Qed.
+
+  (* ---- 4. a non-ascending step is an error, never an answer ---- *)
+  (* nonmono_at m l : trans l (join of preds) = new, m l = old, and partial_cmp new old is Less or None *)
+  Theorem fp_error_not_unsound : forall k m l q' max,
+    nsteps false k [] [entry] m (l :: q') -> nonmono_at m l ->
+    run (Datatypes.S (Datatypes.S max)) false max 0 [] [entry] = (if k <=? max then Fail EOrdering else Fail EMaxSteps) /\
+    (forall fuel max' m', run fuel false max' 0 [] [entry] <> Done m').
+  Proof. exact (FixedPointProofs.fp_error_not_unsound L S eqb eqb_spec join_from push_to trans join cmp succ pred entry from_ok to_ok). Qed.
+
+  Theorem fp_error_not_unsound_backward : forall k m l q',
+    nsteps false k [] [entry] m (l :: q') -> nonmono_at m l ->
+    forall fuel, run_nobudget fuel false [] [entry] = (if k <? fuel then Fail EOrdering else OutOfFuel).
+  Proof. exact (FixedPointProofs.fp_error_not_unsound_nobudget L S eqb eqb_spec join_from push_to trans join cmp succ pred entry from_ok to_ok). Qed.
+
+  Theorem fp_ordering_origin : forall n,
+    (forall l st, trans l st <> Err EOrdering) ->
+    term false [] [entry] n (Fail EOrdering) ->
+    exists k m l q', n = Datatypes.S k /\ nsteps false k [] [entry] m (l :: q') /\ nonmono_at m l.
+  Proof. exact (FixedPointProofs.fp_ordering_origin L S eqb eqb_spec join_from push_to trans join cmp succ pred entry from_ok to_ok). Qed.
+  (* ---- 5. monotone analysis over a finite-height lattice: the engines terminate with a map ---- *)
+  Section Monotone.
+    Hypothesis cmp_refl : forall s, cmp s s = Some Eq.
+    Hypothesis le_trans : forall a b c, le a b -> le b c -> le a c.
+    Hypothesis join_lub : forall a b j, join a b = Ok j -> le a j /\ le b j /\ (forall c, le a c -> le b c -> le j c).
+    Hypothesis trans_mono : forall l x y a b, reach l -> (x = None -> l = entry) -> ole x y ->
+      trans l x = Ok a -> trans l y = Ok b -> le a b.
+    Hypothesis cmp_ge : forall a b, le b a -> cmp a b = Some Gt \/ cmp a b = Some Eq.
+    Hypothesis join_total : forall a b, exists j, join a b = Ok j.
+    Hypothesis trans_total : forall l st, reach l -> (st = None -> l = entry) -> exists s, trans l st = Ok s.
+
+    Theorem fp_monotone_no_error : forall n o, term false [] [entry] n o -> exists m, o = Done m.
+    Proof. exact (FixedPointProofs.fp_monotone_no_error L S eqb eqb_spec join_from push_to trans join cmp succ pred entry from_ok to_ok converse
+                    cmp_refl le_trans join_lub trans_mono cmp_ge join_total trans_total). Qed.
+
+    Theorem fp_complete : forall (rank : S -> nat) h U d max,
+      (forall s, rank s <= h) -> (forall a b, cmp a b = Some Gt -> rank b < rank a) ->
+      NoDup U -> (forall l, reach l -> In l U) -> (forall l, reach l -> length (succ l) <= d) ->
+      1 + d * (length U * Datatypes.S h) <= Datatypes.S max ->
+      exists m, run (Datatypes.S (Datatypes.S max)) false max 0 [] [entry] = Done m.
+    Proof. exact (FixedPointProofs.fp_complete L S eqb eqb_spec join_from push_to trans join cmp succ pred entry from_ok to_ok converse
+                    cmp_refl le_trans join_lub trans_mono cmp_ge join_total trans_total). Qed.
+
+    Theorem fp_complete_backward : forall (rank : S -> nat) h U d fuel,
+      (forall s, rank s <= h) -> (forall a b, cmp a b = Some Gt -> rank b < rank a) ->
+      NoDup U -> (forall l, reach l -> In l U) -> (forall l, reach l -> length (succ l) <= d) ->
+      1 + d * (length U * Datatypes.S h) < fuel ->
+      exists m, run_nobudget fuel false [] [entry] = Done m.
+    Proof. exact (FixedPointProofs.fp_complete_nobudget L S eqb eqb_spec join_from push_to trans join cmp succ pred entry from_ok to_ok converse
+                    cmp_refl le_trans join_lub trans_mono cmp_ge join_total trans_total). Qed.
+  End Monotone.
+  (* ---- 5'. the same, with the lattice hypotheses required only on a set [good] of states closed under
+          trans and join (clients whose transfer function is partial / whose order is only well-behaved
+          on the states that arise) ---- *)
+  Section Relative.
+    Variable good : S -> Prop.
+    Notation ogood := (ogood S good).     (* ogood x := forall s, x = Some s -> good s *)
+    Notation Good := (Good L S eqb good). (* every state stored in the map is good *)
+    Hypothesis good_trans : forall l st a, reach l -> (st = None -> l = entry) -> ogood st -> trans l st = Ok a -> good a.
+    Hypothesis good_join : forall a b j, good a -> good b -> join a b = Ok j -> good j.
+    Hypothesis le_trans : forall a b c, good a -> good b -> good c -> le a b -> le b c -> le a c.
+    Hypothesis join_lub : forall a b j, good a -> good b -> join a b = Ok j ->
+      le a j /\ le b j /\ (forall c, good c -> le a c -> le b c -> le j c).
+    Hypothesis trans_mono : forall l x y a b, reach l -> (x = None -> l = entry) -> ogood x -> ogood y -> ole x y ->
+      trans l x = Ok a -> trans l y = Ok b -> le a b.
+
+    Theorem fp_good : forall fuel force max m, run fuel force max 0 [] [entry] = Done m -> Good m.
+    Proof. exact (FixedPointProofs.fp_good L S eqb eqb_spec join_from push_to trans join cmp succ pred entry from_ok to_ok converse
+                    good good_trans good_join). Qed.
+
+    Theorem fp_least_rel : forall m', Good m' -> (forall l, reach l -> holds le m' l) ->
+      forall fuel force max m, run fuel force max 0 [] [entry] = Done m ->
+      forall l s, lookup m l = Some s -> exists s', lookup m' l = Some s' /\ le s s'.
+    Proof. exact (FixedPointProofs.fp_least_rel L S eqb eqb_spec join_from push_to trans join cmp succ pred entry from_ok to_ok converse
+                    good good_trans good_join le_trans join_lub trans_mono). Qed.
+
+    Hypothesis cmp_refl : forall s, cmp s s = Some Eq.
+    Hypothesis cmp_ge : forall a b, good a -> good b -> le b a -> cmp a b = Some Gt \/ cmp a b = Some Eq.
+    Hypothesis join_total : forall a b, good a -> good b -> exists j, join a b = Ok j.
+    Hypothesis trans_total : forall l st, reach l -> (st = None -> l = entry) -> ogood st -> exists s, trans l st = Ok s.
+
+    Theorem fp_monotone_no_error_rel : forall n o, term false [] [entry] n o -> exists m, o = Done m.
+    Proof. exact (FixedPointProofs.fp_monotone_no_error_rel L S eqb eqb_spec join_from push_to trans join cmp succ pred entry from_ok to_ok converse
+                    cmp_refl good good_trans good_join le_trans join_lub trans_mono cmp_ge join_total trans_total). Qed.
+
+    Theorem fp_complete_rel : forall (rank : S -> nat) h U d max,
+      (forall s, rank s <= h) -> (forall a b, cmp a b = Some Gt -> rank b < rank a) ->
+      NoDup U -> (forall l, reach l -> In l U) -> (forall l, reach l -> length (succ l) <= d) ->
+      1 + d * (length U * Datatypes.S h) <= Datatypes.S max ->
+      exists m, run (Datatypes.S (Datatypes.S max)) false max 0 [] [entry] = Done m.
+    Proof. exact (FixedPointProofs.fp_complete_rel L S eqb eqb_spec join_from push_to trans join cmp succ pred entry from_ok to_ok converse
+                    cmp_refl good good_trans good_join le_trans join_lub trans_mono cmp_ge join_total trans_total). Qed.
+  End Relative.
+End C09.
+
+Print Assumptions fp_solution.
+Print Assumptions fp_solution_backward.
+Print Assumptions fp_forced.
+Print Assumptions fp_forced_backward.
+Print Assumptions fp_forced_postfix.
+Print Assumptions fp_forced_postfix_backward.
+Print Assumptions fp_least.
+Print Assumptions fp_least_backward.
+Print Assumptions none_only_at_entry.
+Print Assumptions fp_terminates.
+Print Assumptions fp_terminates_backward.
+Print Assumptions fp_budget_suffices.
+Print Assumptions fp_no_maxsteps.
+Print Assumptions fp_budget.
+Print Assumptions fp_maxsteps_iff.
+Print Assumptions run_never_out_of_fuel.
+Print Assumptions fp_error_not_unsound.
+Print Assumptions fp_error_not_unsound_backward.
+Print Assumptions fp_ordering_origin.
+Print Assumptions fp_monotone_no_error.
+Print Assumptions fp_complete.
+Print Assumptions fp_complete_backward.
+Print Assumptions fp_good.
+Print Assumptions fp_least_rel.
+Print Assumptions fp_monotone_no_error_rel.
+Print Assumptions fp_complete_rel.
+
+(* the hypotheses are jointly satisfiable: entry on a cycle, a self-loop, counter lattice of height 3 --
+   every hypothesis of fp_complete (hence of all theorems above) is discharged for this instance *)
+Example c09_example_complete :
+  exists m, FixedPoint.run bool nat Bool.eqb (fun l => Ok (xpred l)) (fun l => Ok (xsucc l)) xtrans xjoin xcmp 20 false 18 0 [] [true] = Done m.
+Proof. exact C09Example.c09_example_complete. Qed.
+Example c09_example_value :
+  FixedPoint.run bool nat Bool.eqb (fun l => Ok (xpred l)) (fun l => Ok (xsucc l)) xtrans xjoin xcmp 20 false 18 0 [] [true]
+  = Done [(true, 3); (false, 3)].
+Proof. exact C09Example.c09_example_value. Qed.
+
+(* ---- 6. on IL functions (Flow/FpIL.v = fixed_point_forward_options / fixed_point_backward_options on
+        il::Function), with C18's location lemmas discharging the location hypotheses; cfg_inv is C15's
+        invariant of control-flow graphs ---- *)
+Theorem fp_forward_solution : forall S f, cfg_inv (f_cfg f) = true -> forall trans join cmp max m, (forall s, cmp s s = Some Eq) ->
+  fp_forward S f trans join cmp false max = Ok m ->
+  exists e b, g_entry (f_cfg f) = Some e /\ f_block f e = Ok b /\
+    (forall l, dom S m l <-> reach floc (succ_f f) (block_first_loc b) l) /\
+    (forall l, dom S m l -> eqn_ok floc S floc_eqb trans join cmp (pred_f f) m l).
+Proof. exact FpILProofs.fp_forward_solution. Qed.
+Print Assumptions fp_forward_solution.
+
+Theorem fp_backward_solution : forall S f, cfg_inv (f_cfg f) = true -> forall trans join cmp fuel m, (forall s, cmp s s = Some Eq) ->
+  fp_backward S f trans join cmp fuel false = Ok m ->
+  exists e b, g_exit (f_cfg f) = Some e /\ f_block f e = Ok b /\
+    (forall l, dom S m l <-> reach floc (pred_f f) (block_last_loc b) l) /\
+    (forall l, dom S m l -> eqn_ok floc S floc_eqb trans join cmp (succ_f f) m l).
+Proof. exact FpILProofs.fp_backward_solution. Qed.
+Print Assumptions fp_backward_solution.
+
+(* the location hypotheses (from_ok, to_ok, converse) of every theorem above hold for IL functions *)
+Theorem il_location_hyps_forward : forall f, cfg_inv (f_cfg f) = true -> forall en, valid_loc f en = true ->
+  (forall l, reach floc (succ_f f) en l -> backward f l = Ok (pred_f f l)) /\
+  (forall l, reach floc (succ_f f) en l -> forward f l = Ok (succ_f f l)) /\
+  (forall a b, reach floc (succ_f f) en a -> reach floc (succ_f f) en b -> (In b (succ_f f a) <-> In a (pred_f f b))).
+Proof. exact FpILProofs.il_location_hyps_forward. Qed.
+Print Assumptions il_location_hyps_forward.
+
+Theorem il_location_hyps_backward : forall f, cfg_inv (f_cfg f) = true -> forall en, valid_loc f en = true ->
+  (forall l, reach floc (pred_f f) en l -> forward f l = Ok (succ_f f l)) /\
+  (forall l, reach floc (pred_f f) en l -> backward f l = Ok (pred_f f l)) /\
+  (forall a b, reach floc (pred_f f) en a -> reach floc (pred_f f) en b -> (In b (pred_f f a) <-> In a (succ_f f b))).
+Proof. exact FpILProofs.il_location_hyps_backward. Qed.
+Print Assumptions il_location_hyps_backward.
+
+Theorem fp_forward_budget : forall S f, cfg_inv (f_cfg f) = true -> forall trans join cmp (rank : S -> nat) h d max,
+  (forall s, rank s <= h) -> (forall a b, cmp a b = Some Gt -> rank b < rank a) ->
+  (forall l, valid_loc f l = true -> length (succ_f f l) <= d) ->
+  (forall l st, trans l st <> Err EMaxSteps) -> (forall a b, join a b <> Err EMaxSteps) ->
+  1 + d * (length (locations f) * Datatypes.S h) <= Datatypes.S max ->
+  fp_forward S f trans join cmp false max <> Err EMaxSteps.
+Proof. exact FpILProofs.fp_forward_budget. Qed.
+Print Assumptions fp_forward_budget.
